@@ -94,6 +94,10 @@ BUILTINS = {
     'scope_search': (r'self\s*\.symbols\s*\.iter\(\)\s*(\.rev\(\))?\s*\.map\(\|table\| table\.(lookup_var|lookup_func)\(name\)\)'
                      r'\s*\.find\(Self::stop_searching\)',
                      lambda m: 'search_%s(&self.symbols, %s, name)' % (m.group(2), 'true' if m.group(1) else 'false')),
+    # diags.sort_by_key(|diag| diag.line)   -> {stable,unstable}_sort_by_line(&mut diags): which one is read off the
+    # method name, so replacing the stable sort by an unstable one fails the ordering contract
+    'sort_by_line': (r'diags\.(sort_by_key|sort_by_cached_key|sort_unstable_by_key)\(\|diag\| diag\.line\)',
+                     lambda m: '%s_sort_by_line(&mut diags)' % ('unstable' if 'unstable' in m.group(1) else 'stable')),
     # Val::Number(a + b)  ->  Val::Number(f64_binop('+', *a, *b))   (a, b are `&f64` bindings)
     'f64arith': (r'Val::Number\((\w+) ([-+*/]) (\w+)\)',
                  lambda m: "Val::Number(f64_binop('%s', *%s, *%s))" % (m.group(2), m.group(1), m.group(3))),
@@ -259,6 +263,7 @@ def emit_fn(b, out, meta, unit_rw, unit_name):
     meta['rewrites'] += nrw
     newname = b.d['as'] or name
     qm = re.findall(r'[A-Za-z_]\w*', ctx)
+    qm = [q for q in qm if len(q) > 1 and q not in ('impl', 'for', 'fn')]
     qual = (qm[-1] + '::') if (qm and ctx not in ('-', '')) else ''
     if b.d['sig']:
         sig = b.d['sig'].rstrip()
